@@ -4,7 +4,7 @@ import io
 import random
 
 from ..harness import Shard, rng_for, h64, schema_shape, datum_shape, printable, guard, exc_name
-from ..gen.cases import gen_case
+from ..gen.cases import gen_case, float_double_unions
 from ..gen.mutate import mutate
 from ..ref import schema as RS, binary as RB, conform as RC, container as RK
 from .. import known
@@ -195,11 +195,11 @@ def check_writers(sh, fa, case, d, conf, dtn, rng):
             sh.count("json_writer_rejections_checked")
 
 
-def one_case(sh, fa, V, rng, case):
+def one_case(sh, fa, V, rng, case, may_mutate=True):
     js, node = case["schema"], case["node"]
     d = case["datum"]
     kind, depth = "none", 0
-    if rng.random() < 0.6:
+    if may_mutate and rng.random() < 0.6:
         m = mutate(node, d, rng)
         if m is not None:
             d, kind, depth = m
@@ -285,6 +285,15 @@ def run_shard(spec):
                 if res[(False, dtn)] is not None:
                     check_writers(sh, fa, case, d, res[(False, dtn)], dtn, rng)
         return sh.result()
+    if spec["shard"] == 0:
+        # float and double side by side in a union, every spelling of the two primitives
+        for js, d, feats in float_double_unions():
+            node, env = RS.build(js)
+            case = {"schema": js, "node": node, "env": env, "datum": d, "features": set(feats)}
+            sh.feat(feats)
+            sh.count("float_double_union_cases")
+            sh.run_case(one_case, sh, fa, V, random.Random(7), case, False)
+            sh.run_case(one_case, sh, fa, V, random.Random(8), case)
     i = 0
     while i < spec["n"] and not sh.out_of_time():
         i += 1
